@@ -1375,8 +1375,10 @@ class ValueObject(Value):
                 "<*"
                 + ", ".join(
                     [
-                        f"{key}={self.value.get(key)}"
-                        for key in self.value.keys()
+                        # rendering a member may run its _str_, which may
+                        # add or remove members of this object
+                        f"{key}={value}"
+                        for key, value in list(self.value.items())
                         if not key.startswith("_")
                     ]
                 )
